@@ -9,11 +9,11 @@ package main
 // store, and both requests must have been answered.
 
 import (
-	"time"
-	"github.com/tinode/chat/server/auth"
 	"fmt"
+	"github.com/tinode/chat/server/auth"
 	"strings"
 	"testing"
+	"time"
 
 	"github.com/tinode/chat/server/zzverif/memdb"
 	"github.com/tinode/chat/server/zzverif/vatomic"
@@ -105,7 +105,9 @@ func vfAtLoadRun(r *vfev.Report, nbp *int, shard, shards int, target string, nop
 	build func() (*vfTW, int), request func(t *vfTW, i int) (string, *vfClient)) {
 	nb := *nbp
 	defer func() { *nbp = nb }()
-	for oi := 0; oi < nops; oi++ {
+	for oi := 0; oi < 2*nops; oi++ {
+		sel := oi >= nops // second pass: every run loop prefers the last ready select case
+		oi := oi % nops
 		events := 0
 		for k := 0; k <= events+1; k++ {
 			nb++
@@ -118,7 +120,7 @@ func vfAtLoadRun(r *vfev.Report, nbp *int, shard, shards int, target string, nop
 			var loaded, alive bool
 			stuck, slot := "", ""
 			where := "after the load"
-			res := vsched.Run(vsched.Config{MaxSteps: 4000000}, func() {
+			res := vsched.Run(vsched.Config{MaxSteps: 4000000, SelectLast: sel}, func() {
 				t, loader := build()
 				if target == "p2p" {
 					for i := 0; i < 2; i++ {
@@ -226,9 +228,9 @@ func vfAtLoadRun(r *vfev.Report, nbp *int, shard, shards int, target string, nop
 					}
 				}
 			})
-			name := fmt.Sprintf("%s %s", opName(oi), where)
+			name := fmt.Sprintf("%s %s%s", opName(oi), where, map[bool]string{false: "", true: " (select prefers the last ready case)"}[sel])
 			r.Eval(1)
-			r.Distinct(fmt.Sprintf("%s/%d", opName(oi), k))
+			r.Distinct(fmt.Sprintf("%s/%d/%v", opName(oi), k, sel))
 			r.States++
 			r.Transitions += int64(res.Steps)
 			r.Traces++
@@ -283,176 +285,178 @@ func vfAtEnd(prop, part string) {
 		{Kind: "subme", Actor: 2}, // deluser only: the account's own {sub me} while it is being deleted
 	}
 	nb := 0
-	for _, what := range []string{"unload", "delete", "deluser"} {
-		for _, op := range menu {
-			if what == "unload" && op.Kind == "leave" || (op.Kind == "subme") != (what == "deluser" && op.Kind == "subme") {
-				continue
-			}
-			events := 0
-			for k := 0; k <= events+1; k++ {
-				nb++
-				if k > 0 && nb%shards != shard {
+	for _, sel := range []bool{false, true} {
+		for _, what := range []string{"unload", "delete", "deluser"} {
+			for _, op := range menu {
+				if what == "unload" && op.Kind == "leave" || (op.Kind == "subme") != (what == "deluser" && op.Kind == "subme") {
 					continue
 				}
-				var injected bool
-				var sCode, opCode, after int
-				var diffs, leftover, stuckSess []string
-				var exists bool
-				where := "afterwards"
-				res := vsched.Run(vsched.Config{MaxSteps: 4000000}, func() {
-					t := vfBuildTW(vfTWOpts{Users: 5, Root: true, PreSub: []int{1, 2}, Admin: []int{1}})
-					if what == "deluser" {
-						// u2 stays attached to the group and to its 'me' topic while root deletes the account
-						if op.Kind != "subme" {
-							t.cl[2].Req(`{"sub":{"id":"$ID","topic":"me"}}`)
+				events := 0
+				for k := 0; k <= events+1; k++ {
+					nb++
+					if k > 0 && nb%shards != shard {
+						continue
+					}
+					var injected bool
+					var sCode, opCode, after int
+					var diffs, leftover, stuckSess []string
+					var exists bool
+					where := "afterwards"
+					res := vsched.Run(vsched.Config{MaxSteps: 4000000, SelectLast: sel}, func() {
+						t := vfBuildTW(vfTWOpts{Users: 5, Root: true, PreSub: []int{1, 2}, Admin: []int{1}})
+						if what == "deluser" {
+							// u2 stays attached to the group and to its 'me' topic while root deletes the account
+							if op.Kind != "subme" {
+								t.cl[2].Req(`{"sub":{"id":"$ID","topic":"me"}}`)
+							}
+						} else if what == "unload" {
+							for _, c := range t.cl {
+								if c.sess != nil && c.sess.getSub(t.grp) != nil {
+									c.Req(`{"leave":{"id":"$ID","topic":"%s"}}`, t.grp)
+								}
+							}
+						} else {
+							// u2 is subscribed but not attached; u0 and u1 stay attached
+							t.cl[2].Req(`{"leave":{"id":"$ID","topic":"%s"}}`, t.grp)
 						}
-					} else if what == "unload" {
 						for _, c := range t.cl {
-							if c.sess != nil && c.sess.getSub(t.grp) != nil {
-								c.Req(`{"leave":{"id":"$ID","topic":"%s"}}`, t.grp)
+							c.Take()
+						}
+						req, c := t.aclRequest(op)
+						if op.Kind == "subme" {
+							req, c = `{"sub":{"id":"$ID","topic":"me"}}`, t.cl[2]
+						}
+						n := 0
+						prev := memdb.OnCall
+						opID := ""
+						event := func(ev string) {
+							if injected {
+								return
+							}
+							n++
+							if n == k {
+								injected = true
+								where = fmt.Sprintf("at event %d (%s)", k, ev)
+								opID = c.id()
+								c.Post(strings.Replace(req, "$ID", opID, 1))
+								vsched.Quiesce()
 							}
 						}
-					} else {
-						// u2 is subscribed but not attached; u0 and u1 stay attached
-						t.cl[2].Req(`{"leave":{"id":"$ID","topic":"%s"}}`, t.grp)
-					}
-					for _, c := range t.cl {
-						c.Take()
-					}
-					req, c := t.aclRequest(op)
-					if op.Kind == "subme" {
-						req, c = `{"sub":{"id":"$ID","topic":"me"}}`, t.cl[2]
-					}
-					n := 0
-					prev := memdb.OnCall
-					opID := ""
-					event := func(ev string) {
-						if injected {
-							return
+						memdb.OnCall = func(name string) {
+							if prev != nil {
+								prev(name)
+							}
+							event("before store call " + name)
 						}
-						n++
-						if n == k {
-							injected = true
-							where = fmt.Sprintf("at event %d (%s)", k, ev)
-							opID = c.id()
-							c.Post(strings.Replace(req, "$ID", opID, 1))
+						memdb.OnReturn = func(name string) { event("after store call " + name) }
+						vatomic.OnOp = func(write bool) { event("atomic operation") }
+						restore := func() { memdb.OnCall, memdb.OnReturn, vatomic.OnOp = prev, nil, nil }
+						vsched.OnKill(restore)
+						if what == "unload" {
+							vsched.Advance(idleMasterTopicTimeout + 2*time.Second)
+							sCode = 200
+						} else if what == "deluser" {
+							sCode, _ = t.cl[4].Req(`{"del":{"id":"$ID","what":"user","user":"%s","hard":true}}`, t.users[2].id())
+						} else {
+							sCode, _ = t.cl[0].Req(`{"del":{"id":"$ID","topic":"%s","what":"topic","hard":true}}`, t.grp)
+						}
+						restore()
+						if k == 0 {
+							events = n
+						}
+						if !injected {
+							opCode, _ = c.Req(req)
+						} else {
 							vsched.Quiesce()
+							for _, f := range c.Take() {
+								if f.Msg.Ctrl != nil && f.Msg.Ctrl.Id == opID {
+									opCode = f.Msg.Ctrl.Code
+								} else if f.Msg.Meta != nil && f.Msg.Meta.Id == opID && opCode == 0 {
+									opCode = 200
+								}
+							}
 						}
-					}
-					memdb.OnCall = func(name string) {
-						if prev != nil {
-							prev(name)
+						if opCode == 0 && c.ended {
+							opCode = -1 // the server ended the connection of the deleted user: nothing more is owed
 						}
-						event("before store call " + name)
-					}
-					memdb.OnReturn = func(name string) { event("after store call " + name) }
-					vatomic.OnOp = func(write bool) { event("atomic operation") }
-					restore := func() { memdb.OnCall, memdb.OnReturn, vatomic.OnOp = prev, nil, nil }
-					vsched.OnKill(restore)
-					if what == "unload" {
-						vsched.Advance(idleMasterTopicTimeout + 2*time.Second)
-						sCode = 200
-					} else if what == "deluser" {
-						sCode, _ = t.cl[4].Req(`{"del":{"id":"$ID","what":"user","user":"%s","hard":true}}`, t.users[2].id())
-					} else {
-						sCode, _ = t.cl[0].Req(`{"del":{"id":"$ID","topic":"%s","what":"topic","hard":true}}`, t.grp)
-					}
-					restore()
-					if k == 0 {
-						events = n
-					}
-					if !injected {
-						opCode, _ = c.Req(req)
-					} else {
 						vsched.Quiesce()
-						for _, f := range c.Take() {
-							if f.Msg.Ctrl != nil && f.Msg.Ctrl.Id == opID {
-								opCode = f.Msg.Ctrl.Code
-							} else if f.Msg.Meta != nil && f.Msg.Meta.Id == opID && opCode == 0 {
-								opCode = 200
+						// a session which the server has terminated (eviction notice without a topic) has lost its
+						// writer; the peer sees the connection die, i.e. the read side ends as well
+						for _, cl := range t.w.clients {
+							for _, f := range cl.frames {
+								if m := f.Msg; m != nil && m.Ctrl != nil && m.Ctrl.Code == 205 && m.Ctrl.Topic == "" && m.Ctrl.Id == "" && !cl.closed {
+									cl.Disconnect()
+								}
 							}
 						}
-					}
-					if opCode == 0 && c.ended {
-						opCode = -1 // the server ended the connection of the deleted user: nothing more is owed
-					}
-					vsched.Quiesce()
-					// a session which the server has terminated (eviction notice without a topic) has lost its
-					// writer; the peer sees the connection die, i.e. the read side ends as well
-					for _, cl := range t.w.clients {
-						for _, f := range cl.frames {
-							if m := f.Msg; m != nil && m.Ctrl != nil && m.Ctrl.Code == 205 && m.Ctrl.Topic == "" && m.Ctrl.Id == "" && !cl.closed {
-								cl.Disconnect()
+						vsched.Quiesce()
+						s := t.snap()
+						exists = s.alive()
+						diffs = s.cacheVsStore()
+						if what == "deluser" && sCode >= 200 && sCode < 300 {
+							if ss, ok := s.live("u2"); ok {
+								leftover = append(leftover, "stored subscription "+ss.String())
+							}
+							if len(s.Attached["u2"]) > 0 {
+								leftover = append(leftover, fmt.Sprintf("attached sessions %v", s.Attached["u2"]))
 							}
 						}
-					}
-					vsched.Quiesce()
-					s := t.snap()
-					exists = s.alive()
-					diffs = s.cacheVsStore()
-					if what == "deluser" && sCode >= 200 && sCode < 300 {
-						if ss, ok := s.live("u2"); ok {
-							leftover = append(leftover, "stored subscription "+ss.String())
+						if exists {
+							after, _ = t.cl[1].Req(`{"sub":{"id":"$ID","topic":"%s"}}`, t.grp)
 						}
-						if len(s.Attached["u2"]) > 0 {
-							leftover = append(leftover, fmt.Sprintf("attached sessions %v", s.Attached["u2"]))
+						// request bookkeeping never blocks a session: everybody who was involved is still served
+						for i, pc := range t.cl {
+							if pc.ended || pc.closed || (what == "deluser" && i == 2) {
+								continue
+							}
+							if pc.sess != nil && pc.sess.inflightReqs != nil && len(pc.sess.inflightReqs.sem) != 0 {
+								stuckSess = append(stuckSess, fmt.Sprintf("%s: request slot still taken", pc.name))
+							} else if fc, _ := pc.Req(`{"leave":{"id":"$ID","topic":"fnd"}}`); fc == 0 && !pc.ended {
+								stuckSess = append(stuckSess, fmt.Sprintf("%s: the next {leave} is never answered", pc.name))
+							}
 						}
+					})
+					name := fmt.Sprintf("%s during %s %s%s", op, what, where, map[bool]string{false: "", true: " (select prefers the last ready case)"}[sel])
+					r.Eval(1)
+					r.Distinct(fmt.Sprintf("%s/%s/%d/%v", what, op, k, sel))
+					r.States++
+					r.Transitions += int64(res.Steps)
+					r.Traces++
+					det := map[string]any{"case": name, "first": sCode, "request": opCode, "exists": exists, "differences": diffs, "member_sub_afterwards": after}
+					for _, v := range vfStatusViolations(res) {
+						r.Violation("C14:at-end:"+v.Key, name+": "+v.What, det)
 					}
-					if exists {
-						after, _ = t.cl[1].Req(`{"sub":{"id":"$ID","topic":"%s"}}`, t.grp)
+					r.Outcome(fmt.Sprintf("%s/%s first=%d req=%d exists=%v after=%d", what, op.Kind, sCode/100, opCode/100, exists, after/100))
+					if sCode == 0 {
+						r.Violation("C13:unanswered:at-"+what+":deltopic", name+": the {del topic} was never answered", det)
+						r.Violation("C14:request-unanswered:at-"+what+":deltopic", name+": the {del topic} was never answered", det)
 					}
-					// request bookkeeping never blocks a session: everybody who was involved is still served
-					for i, pc := range t.cl {
-						if pc.ended || pc.closed || (what == "deluser" && i == 2) {
-							continue
+					if opCode == 0 {
+						r.Violation("C13:unanswered:at-"+what+":"+op.Kind, name+": the request was never answered", det)
+						r.Violation("C14:request-unanswered:at-"+what+":"+op.Kind, name+": the request was never answered", det)
+					}
+					for _, d := range diffs {
+						field := d
+						if i := strings.Index(d, ":"); i > 0 {
+							field = strings.Fields(d[:i])[0]
 						}
-						if pc.sess != nil && pc.sess.inflightReqs != nil && len(pc.sess.inflightReqs.sem) != 0 {
-							stuckSess = append(stuckSess, fmt.Sprintf("%s: request slot still taken", pc.name))
-						} else if fc, _ := pc.Req(`{"leave":{"id":"$ID","topic":"fnd"}}`); fc == 0 && !pc.ended {
-							stuckSess = append(stuckSess, fmt.Sprintf("%s: the next {leave} is never answered", pc.name))
+						key := "C08:cache-differs-from-store:during-" + what + ":" + field + ":" + op.Kind
+						if what == "deluser" && strings.HasSuffix(d, "not stored") {
+							key = "C08:cached-subscription-of-deleted-account"
 						}
+						r.Violation(key, fmt.Sprintf("%s (answered %d): %s", name, opCode, d), det)
 					}
-				})
-				name := fmt.Sprintf("%s during %s %s", op, what, where)
-				r.Eval(1)
-				r.Distinct(fmt.Sprintf("%s/%s/%d", what, op, k))
-				r.States++
-				r.Transitions += int64(res.Steps)
-				r.Traces++
-				det := map[string]any{"case": name, "first": sCode, "request": opCode, "exists": exists, "differences": diffs, "member_sub_afterwards": after}
-				for _, v := range vfStatusViolations(res) {
-					r.Violation("C14:at-end:"+v.Key, name+": "+v.What, det)
-				}
-				r.Outcome(fmt.Sprintf("%s/%s first=%d req=%d exists=%v after=%d", what, op.Kind, sCode/100, opCode/100, exists, after/100))
-				if sCode == 0 {
-					r.Violation("C13:unanswered:at-"+what+":deltopic", name+": the {del topic} was never answered", det)
-					r.Violation("C14:request-unanswered:at-"+what+":deltopic", name+": the {del topic} was never answered", det)
-				}
-				if opCode == 0 {
-					r.Violation("C13:unanswered:at-"+what+":"+op.Kind, name+": the request was never answered", det)
-					r.Violation("C14:request-unanswered:at-"+what+":"+op.Kind, name+": the request was never answered", det)
-				}
-				for _, d := range diffs {
-					field := d
-					if i := strings.Index(d, ":"); i > 0 {
-						field = strings.Fields(d[:i])[0]
+					for _, l := range stuckSess {
+						r.Violation("C14:inflight-request-not-released:at-"+what+":"+op.Kind, fmt.Sprintf("%s: afterwards session %s", name, l), det)
+						r.Violation("C13:session-stuck-after:at-"+what+":"+op.Kind, fmt.Sprintf("%s: afterwards session %s", name, l), det)
 					}
-					key := "C08:cache-differs-from-store:during-" + what + ":" + field + ":" + op.Kind
-					if what == "deluser" && strings.HasSuffix(d, "not stored") {
-						key = "C08:cached-subscription-of-deleted-account"
+					for _, l := range leftover {
+						r.Violation("C14:deleted-user-left-behind:"+op.Kind, fmt.Sprintf("%s: the account was deleted (answer %d), yet the topic keeps %s", name, sCode, l), det)
 					}
-					r.Violation(key, fmt.Sprintf("%s (answered %d): %s", name, opCode, d), det)
-				}
-				for _, l := range stuckSess {
-					r.Violation("C14:inflight-request-not-released:at-"+what+":"+op.Kind, fmt.Sprintf("%s: afterwards session %s", name, l), det)
-					r.Violation("C13:session-stuck-after:at-"+what+":"+op.Kind, fmt.Sprintf("%s: afterwards session %s", name, l), det)
-				}
-				for _, l := range leftover {
-					r.Violation("C14:deleted-user-left-behind:"+op.Kind, fmt.Sprintf("%s: the account was deleted (answer %d), yet the topic keeps %s", name, sCode, l), det)
-				}
-				if exists && (after == 0 || after >= 500) {
-					r.Violation("C14:topic-unusable:after-"+what+":"+op.Kind, fmt.Sprintf("%s: the topic exists, a member's {sub} afterwards is answered %d", name, after), det)
-					r.Violation("C13:unanswered:after-"+what+":"+op.Kind, fmt.Sprintf("%s: the topic exists, a member's {sub} afterwards is answered %d", name, after), det)
+					if exists && (after == 0 || after >= 500) {
+						r.Violation("C14:topic-unusable:after-"+what+":"+op.Kind, fmt.Sprintf("%s: the topic exists, a member's {sub} afterwards is answered %d", name, after), det)
+						r.Violation("C13:unanswered:after-"+what+":"+op.Kind, fmt.Sprintf("%s: the topic exists, a member's {sub} afterwards is answered %d", name, after), det)
+					}
 				}
 			}
 		}
